@@ -24,6 +24,9 @@ open Sarpy.Spec.Lifecycle
     answer: `refused`  or  `init:<clobbered>` followed by one token per op
             `<out>:<closed>:<fileOpen>:<seg>;<seg>...`   seg = `<claims>,<handed>,<blk>/<blk>...`
             blk = `<claims>.<count>.<deliv bits, row major>.<written bits, row major>`
+  request  `E <a|e|f|d> <n|0|1>`     what is at the path (absent / empty file / non-empty file / directory), check_existence
+                                     (not given / False / True)                                           (part (e))
+    answer: `refused:<kept>` | `failed:<kept>` | `opened<clobbered>:<kept>`
 -/
 
 def bit (b : Bool) : String := if b then "1" else "0"
@@ -166,8 +169,23 @@ def parseBSegDef (t : String) : Option (Nat × Nat × List (Nat × Nat × Nat ×
 def splitSlash (toks : List String) : List String × List String :=
   (toks.takeWhile (· ≠ "/"), (toks.dropWhile (· ≠ "/")).drop 1)
 
+def parsePre (t : String) : Option PrePath :=
+  if t == "a" then some .absent else if t == "e" then some .emptyFile
+  else if t == "f" then some .nonEmptyFile else if t == "d" then some .directory else none
+
+def parseCheck (t : String) : Option (Option Bool) :=
+  if t == "n" then some none else if t == "0" then some (some false) else if t == "1" then some (some true) else none
+
 def lifeStep (toks : List String) : Option String :=
   match toks with
+  | ["E", pre, ck] => do
+    let pre ← parsePre pre
+    let ck ← parseCheck ck
+    let k := bit (kept pre ck)
+    pure (match pathCtor pre ck with
+      | .refused => s!"refused:{k}"
+      | .failed => s!"failed:{k}"
+      | .opened c => s!"opened{bit c}:{k}")
   | "C" :: nf :: pre :: rest => do
     let nf ← nf.toNat?
     let pre ← parseIds pre
